@@ -178,13 +178,42 @@ func vc_reduce(r *Bignum256) {
 	*r = out
 }
 
+// contract of barrettReduce (vh_C19_barrettReduce): for q1 = x >> 248 and r1 = x mod 2^264 of one x < 2^512, both
+// in Barrett form, the result is the canonical x mod L in reduced form
+func vc_barrett(r, q1, r1 *Bignum256) {
+	// x = q1 2^248 + (r1 mod 2^248); the low 248 bits of r1 are taken limb-wise (the limb that bit 248 falls
+	// into is masked on its own), which keeps the integer form of x free of a division of the whole sum
+	idx, rem := 248/BitsPerLimb, uint(248%BitsPerLimb)
+	low := vZi(0)
+	for i := 0; i < idx; i++ {
+		low = low.Add(vElemZ(r1[i]).Shl(BitsPerLimb * i))
+	}
+	low = low.Add(vElemZ(r1[idx] & (1<<rem - 1)).Shl(BitsPerLimb * idx))
+	x := vVal(q1).Mul(vZi(1).Shl(248)).Add(low)
+	vBarrettIn = x
+	if vBarrettHasExpect {
+		// the caller's own arithmetic first: the value handed over is the exact one (then used as a lemma)
+		vAssert(x.Eq(vBarrettExpect), "the value handed to barrettReduce is exact")
+		vAssume(x.Eq(vBarrettExpect))
+	}
+	vAssert(vInBarrettForm(q1), "barrettReduce precondition: q1 limbs in Barrett form")
+	vAssert(vInBarrettForm(r1), "barrettReduce precondition: r1 limbs in Barrett form")
+	vAssert((r1[idx]>>rem) == (q1[0]&0xffff), "barrettReduce precondition: q1 and r1 agree on their 16 shared bits")
+	out := vFreshScalar("bar_")
+	vAssume(vInReducedForm(&out))
+	vAssume(vVal(&out).Eq(x.Mod(vZc(vL))))
+	*r = out
+}
+
+var vBarrettExpect vZ
+var vBarrettHasExpect bool
+var vBarrettIn vZ
+
 // C19: Expand of a 64-byte string is the exact residue of its little-endian value, canonical
 func vh_C19_Expand64() {
-	if vTier() == 0 {
-		return // monolithic form: thorough tier only (staged proof: see vh_C19_barrett_*)
-	}
-	vReplace(reduce, vc_reduce)
+	vReplace(barrettReduce, vc_barrett)
 	b := vBytes("b", 64)
+	vBarrettExpect, vBarrettHasExpect = vZle(b), true
 	var s Bignum256
 	Expand(&s, b)
 	vReach("Expand(64 bytes) returned")
@@ -204,17 +233,20 @@ func vh_C19_Expand32() {
 	vAssert(vInReducedForm(&s), "output limbs in reduced form")
 }
 
+// Mul(x, y) = x y mod L for all x, y < 2^253 in reduced form (the property asks for [0, L)^2; the 32-bit routine
+// keeps only 22 bits of the top quotient limb, so it is exact precisely because its callers pass reduced scalars)
 func vh_C19_Mul() {
-	if vTier() == 0 {
-		return // monolithic form: thorough tier only (staged proof: see vh_C19_barrett_*)
-	}
-	vReplace(reduce, vc_reduce)
+	vReplace(barrettReduce, vc_barrett)
 	x, y := vFreshScalar("x"), vFreshScalar("y")
-	vAssume(vInReducedForm(&x) && vInReducedForm(&y))
+	vAssume(vInReducedForm(&x))
+	vAssume(vInReducedForm(&y))
+	vAssume(x[LimbSize-1] < 1<<(vTopBits-3))
+	vAssume(y[LimbSize-1] < 1<<(vTopBits-3))
 	L := vZc(vL)
+	vBarrettExpect, vBarrettHasExpect = vVal(&x).Mul(vVal(&y)), true
+	vReach("operands below 2^253")
 	var r Bignum256
 	Mul(&r, &x, &y)
-	vReach("Mul returned")
 	vAssert(vVal(&r).Eq(vVal(&x).Mul(vVal(&y)).Mod(L)), "Mul = (x * y) mod L")
 	vAssert(vInReducedForm(&r), "output limbs in reduced form")
 }
